@@ -404,6 +404,32 @@ Theorem C03_generated_last_instruction_is_read_by_exactly_the_listed_operators :
 Proof. exact last_instruction_readers_checked. Qed.
 Print Assumptions C03_generated_last_instruction_is_read_by_exactly_the_listed_operators.
 
+(* Lists that also hold NO_QUANTIZE instructions (a float reader beside
+   quantized readers of the same tensor): the performer skips them, so the run
+   equals the run on the lists with those instructions dropped
+   (`transform_graph_strip`, Proofs/LastOkSound.v), and the hypotheses are
+   decided on the dropped form `map strip tis`. *)
+Theorem C03_generated_last_instruction_is_read_by_exactly_the_listed_operators_skipping_no_quantize :
+  forall m0 ps tis n m',
+    Forall wf_sg (m_subgraphs m0) -> uids_ok m0 ->
+    insts_of_params m0 ps = Ok tis ->
+    last_hypb m0 (map strip tis) n = true ->
+    transform_graph m0 tis = Ok m' ->
+    exists pre ti0 post steps i0 k g0,
+      map strip tis = pre ++ ti0 :: post /\ length pre = n /\ ti_insts ti0 = steps ++ [i0] /\
+      ti_sg ti0 = Z.of_nat k /\ nth_opt (m_subgraphs m0) k = Some g0 /\
+      exists x' g', nth_opt (m_subgraphs m') k = Some g' /\ ntens g0 <= x' /\
+                    readers_profile x' g' = moved_profile (i_tensor i0) (i_consumers i0) g0.
+Proof. exact last_instruction_readers_checked_skipping. Qed.
+Print Assumptions C03_generated_last_instruction_is_read_by_exactly_the_listed_operators_skipping_no_quantize.
+
+(* the performer never acts on a NO_QUANTIZE instruction: dropping them from
+   every list leaves the whole run unchanged *)
+Theorem C03_no_quantize_instructions_are_inert :
+  forall m tis, transform_graph m (map strip tis) = transform_graph m tis.
+Proof. exact transform_graph_strip. Qed.
+Print Assumptions C03_no_quantize_instructions_are_inert.
+
 (* non-vacuity of the nest: [ADD_QUANTIZE for ops 0 and 1; ADD_DEQUANTIZE for op 1]
    on the input of two readers: the second instruction is re-targeted onto tensor 3,
    its own new tensor 4 is read by operator 1 only *)
